@@ -22,7 +22,7 @@ from mc import domain_g as dg
 from mc import domain_w as dw
 from mc import env
 from mc import forms
-from mc.core import Acc, Ctx, HarnessError, deadline
+from mc.core import Acc, Ctx, HarnessError, Timeout, deadline
 from mc.checks import c09, c09g
 from mc.checks.c07 import brute_objects, params_of
 from mc.checks.common_search import lattice
@@ -225,8 +225,15 @@ def check_form_sampling(acc: Acc, base, desc: Tuple, form, N: int, terms_of, pay
             for p, objs in sorted(truth.items()):
                 c = len(objs)
                 pd = dict(zip(names, p))
-                with deadline(60):
-                    dist, execs = distribution(form, n, pd, c)
+                try:
+                    with deadline(60):
+                        dist, execs = distribution(form, n, pd, c)
+                except Timeout:
+                    # the harness's own enumeration of all c draws and stub picks did not fit the
+                    # budget: reported as a cap (the run is then not exhaustive), not as a
+                    # statement about the library
+                    acc.cap(f"form sampling: enumeration over budget for {where} size {n} ({c} objects)")
+                    continue
                 acc.count("traces", execs)
                 acc.count("evaluations")
                 acc.count("transitions", execs)
